@@ -153,6 +153,7 @@ func Build(s Spec, mons ...vnet.Monitor) *Built {
 		cfg.K.Sync = true
 		cfg.K.PDup = 0.05
 		cfg.K.NotifyAll = true
+		cfg.K.PTxAtPoolRead = []float64{0, 0.1, 0.3}[r.Intn(3)]
 		switch r.Intn(3) {
 		case 1:
 			cfg.LatMin, cfg.LatMax = cfg.TPB/100, cfg.TPB/100
